@@ -1316,38 +1316,94 @@ def _iter_p_loops(fnode):
     import ast
     out = []
     for n in ast.walk(fnode):
-        if isinstance(n, ast.For) and isinstance(n.iter, ast.Call) and isinstance(n.iter.func, ast.Attribute) and n.iter.func.attr == "iter" \
-                and len(n.iter.args) == 1 and ast.unparse(n.iter.args[0]) == "_TEXT_P_TAG" and isinstance(n.target, ast.Name):
+        if isinstance(n, ast.For) and isinstance(n.iter, ast.Call) and isinstance(n.iter.func, ast.Attribute) and n.iter.func.attr in ("iter", "findall", "iterfind") \
+                and len(n.iter.args) >= 1 and isinstance(n.target, ast.Name):
             stores = {ast.unparse(x.func.value) for x in ast.walk(n) if isinstance(x, ast.Call) and isinstance(x.func, ast.Attribute) and x.func.attr == "append"}
             stores |= {ast.unparse(t) for x in ast.walk(n) if isinstance(x, ast.Assign) for t in x.targets if isinstance(t, ast.Attribute)}
             out.append((n, stores))
     return out
 
 
-def fragment_obligations(repo, tier):
+ODP_BLOCK_IDS = ["slide-text.visible-paragraph-stored-exactly-once", "slide-text.comment-or-blank-paragraph-stored-nowhere", "slide-text.notes-untouched",
+                 "slide-text.found_title<=>title-set", "speaker-notes.speaker-notes-never-reach-the-slide-text"]
+PPTX_BLOCK_IDS = ["shape-text.visible-shape-text-enters-the-slide-text-exactly-once", "shape-text.footer-date-header-placeholders-stay-out"]
+
+
+def _unknown(prefix, labels, why, fn):
+    """The fragment was not recognised / not executable: its obligations are reported `unknown` under their usual ids (the
+    native replayer decides), never dropped and never refuted."""
+    return [{"id": prefix + l, "kind": "block", "status": "unknown", "vcs": 0, "seconds": 0.0, "backends": {"shape": 1}, "witness": None,
+             "reason": "UNKNOWN-SHAPE: " + why, "loc": fn, "function": fn} for l in labels]
+
+
+def _flag_names(loop):
     import ast
-    from pyvc import loader, verify
+    return sorted({t.id for x in ast.walk(loop) if isinstance(x, ast.Assign) and isinstance(x.value, ast.Constant) and x.value.value is True
+                   for t in x.targets if isinstance(t, ast.Name)})
+
+
+def _idset_names(loop):
+    import ast
+    out = set()
+    for x in ast.walk(loop):
+        if isinstance(x, ast.Compare) and len(x.ops) == 1 and isinstance(x.ops[0], (ast.In, ast.NotIn)) and isinstance(x.comparators[0], ast.Name) \
+                and isinstance(x.left, ast.Call) and isinstance(x.left.func, ast.Name) and x.left.func.id == "id":
+            out.add(x.comparators[0].id)
+    return sorted(out)
+
+
+def fragment_obligations(repo, tier):
+    from pyvc import loader
     from pyvc.contracts import Registry
     from pyvc.exctypes import Universe
-    from pyvc.state import Frame, State, HeapObj
-    from pyvc.flow import ground_obligation
     obls, fns, undecided = [], [], []
-    mod = loader.module(ODP, repo)
-    fnode = mod.functions.get("_extract_slide")
-    if fnode is None:
-        return {"obligations": [], "undecided": [{"obligation": f"{ODP}::_extract_slide", "why": "contract-target-missing"}]}
-    loops = [(n, st) for n, st in _iter_p_loops(fnode) if any(x.startswith("slide.") for x in st)]
-    text_loops = [n for n, st in loops if not any("notes" in x for x in st)]
-    note_loops = [n for n, st in loops if any("notes" in x for x in st)]
-    pre = "C02/odp_extractor.py::_extract_slide/block#"
-    if len(text_loops) != 1 or len(note_loops) != 1:
-        return {"obligations": [ground_obligation(pre + "paragraph-loops-recognised", False, f"{len(text_loops)} text loop(s), {len(note_loops)} notes loop(s)",
-                                                  "odp_extractor.py", definite=False)]}
     reg = Registry()
     for c in contracts(reg):
         reg.add(c)
     uni = Universe(repo)
-    for kind, loop in (("slide-text", text_loops[0]), ("speaker-notes", note_loops[0])):
+    pre = "C02/odp_extractor.py::_extract_slide/block#"
+    try:
+        r1 = odp_fragment(repo, reg, uni, pre)
+    except Exception as e:  # noqa  (pack code met a shape it does not understand: undecided, not an engine error)
+        r1 = {"obligations": _unknown(pre, ODP_BLOCK_IDS, f"{type(e).__name__}: {e}", f"{ODP}::_extract_slide"), "functions": []}
+    pre2 = "C02/pptx_extractor.py::_process_slide_from_context/block#"
+    try:
+        r2 = pptx_fragment(repo, reg, uni, pre2)
+    except Exception as e:  # noqa
+        r2 = {"obligations": _unknown(pre2, PPTX_BLOCK_IDS, f"{type(e).__name__}: {e}", f"{PPTX}::_process_slide_from_context"), "functions": []}
+    for r, pfx, ids, fn in ((r1, pre, ODP_BLOCK_IDS, f"{ODP}::_extract_slide"), (r2, pre2, PPTX_BLOCK_IDS, f"{PPTX}::_process_slide_from_context")):
+        have = {o["id"] for o in r["obligations"]}
+        r["obligations"] += _unknown(pfx, [l for l in ids if pfx + l not in have], "fragment produced no verification condition for this clause", fn)
+        obls += r["obligations"]
+        fns += r.get("functions", [])
+    return {"obligations": obls, "functions": fns, "undecided": undecided}
+
+
+def odp_fragment(repo, reg, uni, pre):
+    import ast
+    from pyvc import loader, verify
+    from pyvc.state import Frame, State, HeapObj
+    fq = f"{ODP}::_extract_slide"
+    mod = loader.module(ODP, repo)
+    fnode = mod.functions.get("_extract_slide")
+    if fnode is None:
+        return {"obligations": _unknown(pre, ODP_BLOCK_IDS, "function not found", fq)}
+    loops = _iter_p_loops(fnode)
+    loops = [(n, st) for n, st in loops if not any(m is not n and m in list(ast.walk(n)) for m, _s in loops)]      # innermost only
+    owners = lambda stores: {x.split(".")[0] for x in stores if "." in x and x.split(".", 1)[1] in ("body_text", "other_text", "title", "notes")}
+    text_loops = [(n, owners(st)) for n, st in loops if any(x.endswith((".body_text", ".other_text", ".title")) for x in st)]
+    note_loops = [(n, owners(st)) for n, st in loops if any(x.endswith(".notes") for x in st) and not any(x.endswith((".body_text", ".other_text", ".title")) for x in st)]
+    if len(text_loops) != 1 or len(note_loops) != 1 or len(text_loops[0][1]) != 1:
+        return {"obligations": _unknown(pre, ODP_BLOCK_IDS, f"{len(text_loops)} text loop(s), {len(note_loops)} notes loop(s)", fq)}
+    slide_name = next(iter(text_loops[0][1]))
+    obls = []
+    for kind, loop in (("slide-text", text_loops[0][0]), ("speaker-notes", note_loops[0][0])):
+        labels = [l for l in ODP_BLOCK_IDS if l.startswith(kind + ".")]
+        flags = _flag_names(loop)
+        if kind == "slide-text" and len(flags) != 1:
+            obls += _unknown(pre, labels, f"title flag not recognised ({flags})", fq)
+            continue
+        flag_name = flags[0] if flags else None
         ex = EXECUTOR(mod, reg, uni)
         ex.oid_prefix = "C02/odp_extractor.py::_extract_slide"
         st = State()
@@ -1362,20 +1418,19 @@ def fragment_obligations(repo, tier):
         slide = VRef(st.alloc(HeapObj("obj", {"title": VStr(title), "body_text": lists["body_text"][0], "other_text": lists["other_text"][0],
                                               "notes": lists["notes"][0]}, "OdpSlide", False), ex.refs))
         ids = VExt("IdSet", z3.Const("comment_paragraphs", X.IDSET))
-        env = {loop.target.id: VExt("Elem", p), "slide": slide, "found_title": VBool(found)}
-        # any set of identities the enclosing code computed (the comment paragraphs)
-        for nm in {x.id for x in ast.walk(loop) if isinstance(x, ast.Name) and isinstance(x.ctx, ast.Load)}:
-            if "comment" in nm and nm not in env:
-                env[nm] = ids
+        env = {loop.target.id: VExt("Elem", p), slide_name: slide}
+        if flag_name:
+            env[flag_name] = VBool(found)
+        for nm in _idset_names(loop):           # the set of identities the enclosing code computed (comment paragraphs)
+            env.setdefault(nm, ids)
         st.frames = [Frame(env, None, fnode)]
         st.assume(found == (title != lit("")))
-        entry = st.fork()
         ex.cur_fn_stack.append(fnode)
         ex.sinks.append([])
         try:
             outs = ex.exec_block(loop.body, st)
         except X.Unsupported as e:
-            undecided.append({"obligation": pre + kind, "why": "OUT-OF-SUBSET " + str(e)})
+            obls += _unknown(pre, labels, "OUT-OF-SUBSET " + str(e), fq)
             continue
         finally:
             ex.sinks.pop()
@@ -1385,18 +1440,22 @@ def fragment_obligations(repo, tier):
         for o in outs:
             if o.kind not in ("fall", "continue"):
                 continue
-            d = o.st.obj(slide.ref).data
-            t1 = d["title"].t if isinstance(d["title"], VStr) else None
-            f1 = o.st.lookup("found_title")
-
-            def lst(f):
-                n1, c1, _l = _sl(o.st, d[f]) if isinstance(d[f], VRef) else (None, None, None)
-                return n1, c1
-            same = lambda f: z3.And(lst(f)[0] == lists[f][1], lst(f)[1] == lists[f][2]) if lst(f)[0] is not None else z3.BoolVal(False)
-            grew = lambda f: z3.And(lst(f)[0] == lists[f][1] + 1, lst(f)[1] == cc(lists[f][2], text)) if lst(f)[0] is not None else z3.BoolVal(False)
-            t_same = (t1 == title) if t1 is not None else z3.BoolVal(False)
+            ho = o.st.heap.get(slide.ref)
+            d = ho.data if ho is not None and ho.kind == "obj" and ho.data is not None else {}
+            t1 = d["title"].t if isinstance(d.get("title"), VStr) else None
+            f1 = o.st.lookup(flag_name) if flag_name else None
+            shape_ok = t1 is not None and all(isinstance(d.get(f), VRef) and _is_strlist(o.st, d[f]) for f in lists) and (kind != "slide-text" or isinstance(f1, VBool))
+            if not shape_ok:
+                o.st.assume(X.ABSTRACTED)          # the slide object is not in a shape the clauses can read: undecided, not refuted
+                for label in labels:
+                    ex.add_vc("block", label, o.st.pc, z3.BoolVal(False), loc=f"{ODP}:{loop.lineno}")
+                continue
+            lst = lambda f: _sl(o.st, d[f])[:2]
+            same = lambda f: z3.And(lst(f)[0] == lists[f][1], lst(f)[1] == lists[f][2])
+            grew = lambda f: z3.And(lst(f)[0] == lists[f][1] + 1, lst(f)[1] == cc(lists[f][2], text))
+            t_same = t1 == title
             if kind == "slide-text":
-                once = z3.Or(z3.And(t1 == text, z3.Not(found), same("body_text"), same("other_text")) if t1 is not None else z3.BoolVal(False),
+                once = z3.Or(z3.And(t1 == text, z3.Not(found), same("body_text"), same("other_text")),
                              z3.And(t_same, grew("body_text"), same("other_text")),
                              z3.And(t_same, same("body_text"), grew("other_text")))
                 nothing = z3.And(t_same, same("body_text"), same("other_text"))
@@ -1404,19 +1463,14 @@ def fragment_obligations(repo, tier):
                 goals = [("visible-paragraph-stored-exactly-once", z3.Implies(z3.Not(hidden), once)),
                          ("comment-or-blank-paragraph-stored-nowhere", z3.Implies(hidden, nothing)),
                          ("notes-untouched", same("notes")),
-                         ("found_title<=>title-set", (f1.t == (t1 != lit(""))) if isinstance(f1, VBool) and t1 is not None else z3.BoolVal(False))]
+                         ("found_title<=>title-set", f1.t == (t1 != lit("")))]
             else:
                 goals = [("speaker-notes-never-reach-the-slide-text", z3.And(t_same, same("body_text"), same("other_text")))]
             for label, g in goals:
                 ex.add_vc("block", f"{kind}.{label}", o.st.pc, g, loc=f"{ODP}:{loop.lineno}")
         for ob in ex.obls.values():
-            obls.append(dict(verify.discharge(ob, None, {}), function=f"{ODP}::_extract_slide"))
-    fns.append(dict(mod.fn_info("_extract_slide"), obligations=len(obls)))
-    r2 = pptx_fragment(repo, reg, uni)
-    obls += r2["obligations"]
-    fns += r2["functions"]
-    undecided += r2["undecided"]
-    return {"obligations": obls, "functions": fns, "undecided": undecided}
+            obls.append(dict(verify.discharge(ob, None, {}), function=fq))
+    return {"obligations": obls, "functions": [dict(mod.fn_info("_extract_slide"), obligations=len(obls))]}
 
 
 # pptx_extractor._process_slide_from_context, placeholder classification of a shape's text.  Statement: the text of every
@@ -1426,23 +1480,51 @@ PPTX = "sharepoint2text/parsing/extractors/ms_modern/pptx_extractor.py"
 PPTX_EXCLUDED_PH = ["ftr", "dt", "hdr", "sldImg"]
 
 
-def pptx_fragment(repo, reg, uni):
+def pptx_fragment(repo, reg, uni, pre):
     import ast
+    import builtins
     from pyvc import loader, verify
     from pyvc.state import Frame, State, HeapObj
-    from pyvc.flow import ground_obligation
-    pre = "C02/pptx_extractor.py::_process_slide_from_context/block#"
+    fq = f"{PPTX}::_process_slide_from_context"
     mod = loader.module(PPTX, repo)
     fnode = mod.functions.get("_process_slide_from_context")
     if fnode is None:
-        return {"obligations": [], "functions": [], "undecided": [{"obligation": f"{PPTX}::_process_slide_from_context", "why": "contract-target-missing"}]}
-    cands = [n for n in ast.walk(fnode) if isinstance(n, ast.If) and ast.unparse(n.test) == "ph is not None"
-             and any(isinstance(x, ast.Name) and x.id == "TITLE_TYPES" for x in ast.walk(n))]
-    if len(cands) != 1:
-        return {"obligations": [ground_obligation(pre + "classification-recognised", False, f"{len(cands)} candidate statement(s)", "pptx_extractor.py", definite=False)],
-                "functions": [], "undecided": []}
-    stmt = cands[0]
-    obls, undecided = [], []
+        return {"obligations": _unknown(pre, PPTX_BLOCK_IDS, "function not found", fq)}
+
+    def none_test(t):
+        return isinstance(t, ast.Compare) and len(t.ops) == 1 and isinstance(t.ops[0], (ast.Is, ast.IsNot)) and isinstance(t.left, ast.Name) \
+            and isinstance(t.comparators[0], ast.Constant) and t.comparators[0].value is None
+    # the fragment: inside the loop over shapes, everything from the first statement that consults the placeholder-type
+    # tables to the end of the loop body (the classification may be one if-chain or a classify-then-store sequence)
+    mentions = lambda n: any(isinstance(x, ast.Name) and x.id == "TITLE_TYPES" for x in ast.walk(n))
+    bodies = [l.body for l in ast.walk(fnode) if isinstance(l, (ast.For, ast.While)) and any(mentions(x) for x in l.body)]
+    if len(bodies) != 1:
+        return {"obligations": _unknown(pre, PPTX_BLOCK_IDS, "placeholder classification not recognised", fq)}
+    first = next(i for i, x in enumerate(bodies[0]) if mentions(x))
+    block = bodies[0][first:]
+    stmt = ast.Module(body=block, type_ignores=[])
+    stmt.lineno = block[0].lineno
+    tests = [x for x in ast.walk(stmt) if none_test(x)]
+    gets = {x.func.value.id for x in ast.walk(stmt) if isinstance(x, ast.Call) and isinstance(x.func, ast.Attribute) and x.func.attr == "get"
+            and isinstance(x.func.value, ast.Name)}
+    ph_names = sorted({x.left.id for x in tests} & gets)          # the variable that is None-tested and read with .get(): the placeholder element
+    if len(ph_names) != 1:
+        return {"obligations": _unknown(pre, PPTX_BLOCK_IDS, f"placeholder variable not recognised ({ph_names})", fq)}
+    ph_name = ph_names[0]
+    appends = [x for x in ast.walk(stmt) if isinstance(x, ast.Call) and isinstance(x.func, ast.Attribute) and x.func.attr == "append"
+               and isinstance(x.func.value, ast.Name) and len(x.args) == 1]
+    tuple_lists = sorted({x.func.value.id for x in appends if isinstance(x.args[0], ast.Tuple)})
+    str_lists = sorted({x.func.value.id for x in appends if isinstance(x.args[0], ast.Name)})
+    text_names = sorted({x.args[0].id for x in appends if isinstance(x.args[0], ast.Name)}
+                        | {x.args[0].elts[-1].id for x in appends if isinstance(x.args[0], ast.Tuple) and x.args[0].elts and isinstance(x.args[0].elts[-1], ast.Name)})
+    if len(tuple_lists) != 1 or len(text_names) != 1:
+        return {"obligations": _unknown(pre, PPTX_BLOCK_IDS, f"roles not recognised: tuple lists {tuple_lists}, text {text_names}", fq)}
+    text_name, oc_name = text_names[0], tuple_lists[0]
+    stored = {t.id for x in ast.walk(stmt) if isinstance(x, (ast.Assign, ast.AnnAssign, ast.NamedExpr))
+              for t in (x.targets if isinstance(x, ast.Assign) else [x.target]) if isinstance(t, ast.Name)}
+    free = {x.id for x in ast.walk(stmt) if isinstance(x, ast.Name) and isinstance(x.ctx, ast.Load)} - {ph_name, text_name, oc_name} - set(str_lists)
+    free = {n for n in free if n not in mod.assigns and n not in mod.functions and n not in mod.classes and n not in mod.imports and not hasattr(builtins, n)}
+    obls = []
     ex = EXECUTOR(mod, reg, uni)
     ex.oid_prefix = "C02/pptx_extractor.py::_process_slide_from_context"
     for alt in ("placeholder", "no-placeholder"):
@@ -1450,46 +1532,47 @@ def pptx_fragment(repo, reg, uni):
         text = z3.String("text")
         st.assume(z3.Length(text) > 0)
         ph = z3.Const("ph", ELEM)
-        lists = {}
-        for f in ("content_placeholders", "other_textboxes"):
+        env = {ph_name: VExt("Elem", ph) if alt == "placeholder" else NONE, text_name: VStr(text)}
+        for f in str_lists:
             n, cat, lead = z3.Int(f"{f}.len"), z3.String(f"{f}.cat"), z3.String(f"{f}.lead")
             st.assume(X.slist_wf(n, cat, lead))
-            lists[f] = (X.mk_slist(ex, st, n, cat, lead, fresh=False), n, cat)
+            env[f] = X.mk_slist(ex, st, n, cat, lead, fresh=False)
         oc = VRef(st.alloc(HeapObj("list", [], None, False), ex.refs))
-        env = {"ph": VExt("Elem", ph) if alt == "placeholder" else NONE, "text": VStr(text), "position": VUnk("position"),
-               "slide_title": VStr(z3.String("slide_title")), "slide_footer": VStr(z3.String("slide_footer")),
-               "content_placeholders": lists["content_placeholders"][0], "other_textboxes": lists["other_textboxes"][0], "ordered_content": oc}
+        env[oc_name] = oc
+        for n in sorted(free):
+            env[n] = VStr(z3.String(n)) if n in stored else VUnk(n)
         st.frames = [Frame(env, None, fnode)]
         ex.cur_fn_stack.append(fnode)
         ex.sinks.append([])
         try:
-            outs = ex.exec_stmt(stmt, st)
+            outs = ex.exec_block(block, st)
         except X.Unsupported as e:
-            undecided.append({"obligation": pre + "shape-text", "why": "OUT-OF-SUBSET " + str(e)})
-            continue
+            return {"obligations": _unknown(pre, PPTX_BLOCK_IDS, "OUT-OF-SUBSET " + str(e), fq)}
         finally:
             ex.sinks.pop()
             ex.cur_fn_stack.pop()
         ptype = z3.If(ATTR_HAS(ph, lit("type")), ATTR(ph, lit("type")), lit(""))
         excluded = z3.BoolVal(False) if alt == "no-placeholder" else z3.Or([ptype == lit(k) for k in PPTX_EXCLUDED_PH])
         for o in outs:
-            if o.kind != "fall":
+            if o.kind not in ("fall", "continue"):
                 continue
-            items = o.st.obj(oc.ref).data
-            if items is None or len(items) > 1:
-                g_once, g_excl = z3.BoolVal(False), z3.BoolVal(False)
+            ho = o.st.heap.get(oc.ref)
+            items = ho.data if ho is not None and ho.kind == "list" else None
+            ok = items is not None and all(isinstance(it, VTuple) and it.items and isinstance(it.items[-1], VStr) for it in items)
+            if not ok:
+                o.st.assume(X.ABSTRACTED)
+                g_once = g_excl = z3.BoolVal(False)
             elif len(items) == 1:
-                it = items[0]
-                ok = isinstance(it, VTuple) and len(it.items) == 3 and isinstance(it.items[2], VStr)
-                g_once = (it.items[2].t == text) if ok else z3.BoolVal(False)
-                g_excl = z3.Not(excluded)
-            else:
+                g_once, g_excl = items[0].items[-1].t == text, z3.Not(excluded)
+            elif len(items) == 0:
                 g_once, g_excl = excluded, z3.BoolVal(True)
-            ex.add_vc("block", "shape-text.visible-shape-text-enters-the-slide-text-exactly-once", o.st.pc, g_once, loc=f"{PPTX}:{stmt.lineno}")
-            ex.add_vc("block", "shape-text.footer-date-header-placeholders-stay-out", o.st.pc, g_excl, loc=f"{PPTX}:{stmt.lineno}")
+            else:
+                g_once = g_excl = z3.BoolVal(False)
+            ex.add_vc("block", PPTX_BLOCK_IDS[0], o.st.pc, g_once, loc=f"{PPTX}:{stmt.lineno}")
+            ex.add_vc("block", PPTX_BLOCK_IDS[1], o.st.pc, g_excl, loc=f"{PPTX}:{stmt.lineno}")
     for ob in ex.obls.values():
-        obls.append(dict(verify.discharge(ob, None, {}), function=f"{PPTX}::_process_slide_from_context"))
-    return {"obligations": obls, "functions": [dict(mod.fn_info("_process_slide_from_context"), obligations=len(obls))], "undecided": undecided}
+        obls.append(dict(verify.discharge(ob, None, {}), function=fq))
+    return {"obligations": obls, "functions": [dict(mod.fn_info("_process_slide_from_context"), obligations=len(obls))]}
 
 
 EXTRA = [bounded_native, fragment_obligations]
